@@ -23,7 +23,7 @@ impl Number {
         use Number::*;
         Some(match self {
             Integer(x) => Integer("-".to_owned() + x),
-            BigInt(x) => Integer("-".to_owned() + x),
+            BigInt(x) => BigInt("-".to_owned() + x),
             Float(x) => Float("-".to_owned() + x),
             Byte(_) => return None,
         })
